@@ -128,7 +128,7 @@ def gen_case(rng, tier, flavour):
 
 
 def gen(tier, rng):
-    n = 60 if tier == 'quick' else 600
+    n = 48 if tier == 'quick' else 600
     out = []
     for i in range(n):
         out.append(gen_case(rng, tier, ['mix', 'mix', 'doe', 'solver', 'runs', 'mix'][i % 6]))
